@@ -27,13 +27,14 @@ def phi_peskin(r):
 PHI = {"cosine": phi_cosine, "peskin": phi_peskin}
 
 
-def exact_scaled_distances(x: float, dx: float, n_cells: int) -> np.ndarray:
+def exact_scaled_distances(x: float, dx: float, n_cells: int, shift: float | None = None) -> np.ndarray:
     """(centre_i - x) / dx for i in range(n_cells), computed exactly (rationals) from the float
-    inputs, then rounded once to longdouble. Cell centres are (i + 1/2) dx."""
+    inputs, then rounded once to longdouble. Cell centres are shift + i dx (default shift dx / 2)."""
     fx, fdx = Fraction(float(x)), Fraction(float(dx))
-    return np.array([LD(float((Fraction(2 * i + 1, 2) * fdx - fx) / fdx)) for i in range(n_cells)], dtype=LD)
+    fs = fdx / 2 if shift is None else Fraction(float(shift))
+    return np.array([LD(float((fs + i * fdx - fx) / fdx)) for i in range(n_cells)], dtype=LD)
 
 
-def weights_1d(kind: str, x: float, dx: float, n_cells: int) -> np.ndarray:
+def weights_1d(kind: str, x: float, dx: float, n_cells: int, shift: float | None = None) -> np.ndarray:
     """phi((centre_i - x)/dx) / dx for every cell along one axis."""
-    return PHI[kind](exact_scaled_distances(x, dx, n_cells)) / LD(dx)
+    return PHI[kind](exact_scaled_distances(x, dx, n_cells, shift)) / LD(dx)
